@@ -388,6 +388,11 @@ class kFlowDecomp(pathmodel.AbstractPathModelDAG):
         start_time = time.perf_counter()
         (paths, weights) = self.G.decompose_using_max_bottleneck(self.flow_attr)
 
+        # The path weights must have the requested type: the greedy weights are flow values of the input graph
+        if self.weight_type == int and any(int(weight) != weight for weight in weights):
+            return False
+        weights = [self.weight_type(weight) for weight in weights]
+
         # Check if the greedy decomposition satisfies the subpath constraints
         if self.subpath_constraints:
             for subpath in self.subpath_constraints:
@@ -407,7 +412,7 @@ class kFlowDecomp(pathmodel.AbstractPathModelDAG):
             # If paths contains strictly less than self.k paths, 
             # then we add arbitrary paths (i.e. we repeat the first path) with 0 weights to reach self.k paths.
             paths += [paths[0] for _ in range(self.k - len(paths))]
-            weights += [0 for _ in range(self.k - len(weights))]
+            weights += [self.weight_type(0) for _ in range(self.k - len(weights))]
             # self._solution = {
             #     "paths": paths,
             #     "weights": weights,
